@@ -19,18 +19,18 @@ SHIM_MUT = "open_w,write,mkdir,unlink,rmdir,rename,chmod,symlink,link,truncate"
 # The quick tier packages six workspaces: their layout features are not left to chance (every run sees a composite with its own Cargo.toml, ids with
 # several '/', buildpacks nested beneath a composite, a composite without any libcnb: dependency but with a relative path, no composite at all, ...).
 # From the seventh workspace on everything is drawn at random.
-FORCED = {0: {"ncomps": 1, "multi_slash": True, "nested": False, "cargo_toml": None, "zero_dep": None},
-          1: {"ncomps": 2, "multi_slash": False, "nested": False, "cargo_toml": 0, "zero_dep": 1},
+FORCED = {0: {"ncomps": 1, "multi_slash": True, "nested": False, "cargo_toml": None, "zero_dep": None, "case_twin": False},
+          1: {"ncomps": 2, "multi_slash": False, "nested": False, "cargo_toml": 0, "zero_dep": 1, "case_twin": True, "n_bp": 3},
           2: {"ncomps": 1, "multi_slash": False, "nested": True, "cargo_toml": None, "zero_dep": None},
-          3: {"ncomps": 2, "multi_slash": True, "nested": True, "cargo_toml": 1, "zero_dep": None},
-          4: {"ncomps": 0, "multi_slash": False, "nested": False, "cargo_toml": None, "zero_dep": None},
+          3: {"ncomps": 2, "multi_slash": True, "nested": True, "cargo_toml": 1, "zero_dep": None, "case_twin": False},
+          4: {"ncomps": 0, "multi_slash": False, "nested": False, "cargo_toml": None, "zero_dep": None, "case_twin": True, "n_bp": 2},
           5: {"ncomps": 1, "multi_slash": False, "nested": False, "cargo_toml": None, "zero_dep": 0}}
 
 
 def gen_workspace(r, widx):
     """-> description dict"""
     force = FORCED.get(widx, {})
-    n_bp = r.randint(1, 4)
+    n_bp = force.get("n_bp", r.randint(1, 4))
     bps = []
     for i in range(n_bp):
         name = "bp%d%s" % (i, r.choice(["", "-x", "_y"]))
@@ -39,6 +39,10 @@ def gen_workspace(r, widx):
         # the main binary target is normally named after the package; a crate with exactly one [[bin]] of another name is legal too
         main_bin = name if (extra or r.random() < 0.6) else "launcher-%d" % i
         bps.append({"kind": "libcnb", "id": "%s/%s" % (r.choice(["acme", "vp", "a.b"]), name.replace("_", ".")), "dir": "buildpacks/%s" % name, "crate": name, "extra_bins": extra, "main_bin": main_bin})
+    if len(bps) >= 2 and (r.random() < 0.2 if "case_twin" not in force else force["case_twin"]):
+        # two buildpacks whose ids differ in the case of one letter only: two buildpacks, two output directories
+        ns, nm = bps[0]["id"].split("/", 1)
+        bps[1]["id"] = "%s/%s" % (ns.capitalize() if ns.capitalize() != ns else ns.upper(), nm)
     comps = []
     for j in range(force.get("ncomps", r.choice([0, 1, 1, 2]))):
         pool = bps + comps
@@ -387,6 +391,9 @@ def scenario(arg):
         for c in ws["comps"]:
             if c["dir"] != pick["dir"]:
                 invocations.append((c["dir"], "dev", None))   # every composite from its own directory (with other buildpacks nested beneath it or not)
+        for b in ws["bps"]:
+            if "/nested/" in b["dir"] and b["dir"] != pick["dir"]:
+                invocations.append((b["dir"], "dev", None))   # a buildpack that lives beneath another buildpack's directory, from its own directory: it alone is selected
         if tier == "thorough":
             for x in ws["bps"] + ws["comps"]:
                 invocations.append((x["dir"], r.choice(["dev", "release"]), r.choice([None, "out-custom", os.path.join(root, "abs-out")])))
